@@ -41,6 +41,9 @@ OPS = ["write", "write", "write", "tb", "validate", "serialize", "flush", "reset
 def plan(tier, seed):
     n = 32 if tier == "quick" else 400
     specs = [{"part": "memory", "seed": seed, "i": i, "tier": tier} for i in range(n)]
+    # validate() against serialize(): ALL schedules with one preemption in each of the two threads, split over several specs
+    nch = 8 if tier == "quick" else 16
+    specs += [{"part": "memory2p", "seed": seed, "i": j, "tier": tier, "chunk": j, "nchunks": nch} for j in range(nch)]
     specs += [{"part": "filesched", "seed": seed, "i": i, "tier": tier} for i in range(8 if tier == "quick" else 60)]
     specs += [{"part": "filestress", "seed": seed, "i": i, "tier": tier} for i in range(6 if tier == "quick" else 36)]
     return specs
@@ -172,24 +175,62 @@ def memory_run(plan_, nthreads, oplists, counters):
     return st, problems, hook_hits[0], False
 
 
+def run_memory2p(spec, res):
+    """Two threads: A writes a message and calls serialize(); B calls validate() (in-place serialization, field by field).
+    Every schedule with one preemption of A and one of B is executed."""
+    nthreads = 2
+    oplists = [["write", "serialize"], ["validate"]]
+    c = res["counters"]
+    order = ["T0", "T1"]
+    st, problems, hits, aborted = memory_run({"order": order, "changes": []}, nthreads, oplists, c)
+    ev = st["events"]
+    plans = [{"order": order, "changes": [["T0", k0], ["T1", k1]]} for k0 in range(1, ev.get("T0", 0) + 1) for k1 in range(1, ev.get("T1", 0) + 1)]
+    for j, p in enumerate(plans):
+        if j % spec["nchunks"] != spec["chunk"]:
+            continue
+        st, problems, hits, aborted = memory_run(p, nthreads, oplists, c)
+        res["evals"] += 1
+        c["schedules_run"] = c.get("schedules_run", 0) + 1
+        c["two_preemption_schedules_validate_vs_serialize"] = c.get("two_preemption_schedules_validate_vs_serialize", 0) + 1
+        c["lock_hook_entries"] = c.get("lock_hook_entries", 0) + hits
+        res["sets"]["interleavings"].append(sched.trace_hash(st))
+        if len(st["fired"]) == 2:
+            res["nontrivial"].append(sched.trace_hash(st))
+        for nm, k, loc in st["fired"]:
+            res["sets"]["preemption_lines"].append(loc)
+        if aborted:
+            res["inconclusive"] = "schedule abandoned: %s" % st["aborted"]
+        if problems and len(res["violations"]) < 3:
+            res["violations"].append({"msg": problems[0], "mech": None, "detail": {"part": "memory2p", "oplists": oplists, "plan": p, "problems": problems[:5]}})
+            if len(res["violations"]) >= 3:
+                return
+
+
 def run_memory(spec, res):
     rng = random.Random("%s:C16:m:%d" % (spec["seed"], spec["i"]))
     nthreads = rng.choice([2, 2, 3, 3, 4])
     # validate() serializes the stored messages in place (documented), so it is not idempotent and a serialized traceback
     # message cannot be serialized again: a run has either traceback ops or a single validate() call, never both
     r0 = rng.random()
-    if r0 < 0.12:
+    if r0 < 0.15:
+        # validate() (which serializes the stored messages in place, field by field) against concurrent serialize() calls on a
+        # logger that already holds messages
+        oplists = [["write", "write", "validate"], ["write", "serialize", "serialize"]] + [["serialize", "write"]] * (nthreads - 2)
+        r0 = 2.0
+    if r0 == 2.0:
+        pass
+    elif r0 < 0.12 + 0.15:
         # a validate() that is expected to raise (an invalid message was written) must leave the logger usable for everybody
         pool = ["write", "write_invalid", "validate_expect_error", "reset", "write"]
         oplists = [[rng.choice(pool) for _ in range(rng.randint(2, 3))] for _ in range(nthreads)]
         oplists[0][0] = "write_invalid"
         oplists[-1][0] = "validate_expect_error"
-    elif r0 < 0.3:
+    elif r0 < 0.3 + 0.15:
         # messages that fail validation at write time take the error-recording path of write(); serialize()/validate() would
         # legitimately raise for them, so those ops are left out of such runs
         pool = ["write", "write_invalid", "write_invalid", "tb", "flush", "reset"]
         oplists = [[rng.choice(pool) for _ in range(rng.randint(1, 3))] for _ in range(nthreads)]
-    elif r0 < 0.6:
+    elif r0 < 0.6 + 0.15:
         pool = [o for o in OPS if o != "validate"]
         oplists = [[rng.choice(pool) for _ in range(rng.randint(1, 3))] for _ in range(nthreads)]
     else:
@@ -396,9 +437,11 @@ def run_case(spec):
         run_filestress(spec, res)
         return res
     from eliot import _validation
-    n = sched.instrument([_output, _validation] if spec["part"] == "memory" else [_output])
+    n = sched.instrument([_output, _validation] if spec["part"] in ("memory", "memory2p") else [_output])
     res["counters"]["code_objects_instrumented"] = n
-    if spec["part"] == "memory":
+    if spec["part"] == "memory2p":
+        run_memory2p(spec, res)
+    elif spec["part"] == "memory":
         run_memory(spec, res)
     else:
         run_filesched(spec, res)
